@@ -1123,3 +1123,44 @@ def rule_t4(P):
     if n_src < 8 or len(adjusted) < 8:
         raise E5Error(f"T4: too few minting sites ({n_src}) or adjusted fields ({len(adjusted)})")
     return findings, obl, {"t4_mint_sites": n_src, "t4_minted_fields": len(minted), "t4_adjusted_fields": len(adjusted)}
+
+
+def rule_t5(P):
+    """An id allocator must be advanced whenever an id is handed out.  In fea-rs's NameBuilder the next id is *computed* by
+    next_name_id() and *consumed* by writing `last_nonreserved_id`; a function that returns a freshly computed id must write that
+    field on every path to its return (a loop that may run zero times does not count), or two callers are given the same id."""
+    from common import norm_fn
+    findings, obl = [], []
+    n = 0
+    alloc = [k for k, b in P.bodies.items() if k.startswith("fea_rs::compile::tables::name::") and k.endswith("::next_name_id")]
+    if len(alloc) != 1:
+        raise E5Error(f"T5: NameBuilder::next_name_id not found: {alloc}")
+    for key, b in sorted(P.bodies.items()):
+        if not key.startswith("fea_rs::") or key == alloc[0]:
+            continue
+        calls = [bi for bi, blk in enumerate(b["blocks"]) if blk["t"]["t"] == "call" and not blk["cl"]
+                 and ((blk["t"]["f"].get("k") or {}).get("res") == alloc[0])]
+        if not calls:
+            continue
+        # only functions that hand the id to their caller
+        ret_ty = b["locals"][0]
+        if not ret_ty.endswith("NameId"):
+            continue
+        n += 1
+        cfg = CFG(b)
+        writers = set()
+        for bi, blk in enumerate(b["blocks"]):
+            if blk["cl"]:
+                continue
+            for st in blk["s"]:
+                if len(st["d"]) > 1 and any(isinstance(e, str) and e.startswith("f:last_nonreserved_id:") for e in st["d"][1:]):
+                    writers.add(bi)
+        ok = bool(writers) and cfg.must_pass(writers)
+        obl.append({"rule": "T5", "inst": f"{norm_fn(key)} consumes the name id it hands out on every path", "ok": ok})
+        if not ok:
+            findings.append({"rule": "T5", "key": f"T5|{norm_fn(key)}", "msg": f"{key} returns the id computed by next_name_id() but does not advance the allocator "
+                             f"(`last_nonreserved_id`) on every path to its return: when the path that skips it is taken the next caller is given the same name id "
+                             f"(two features / STAT values then share one name record)", "loc": P.body_file_line(key), "detail": {}})
+    if n < 1:
+        raise E5Error("T5: no function hands out a freshly computed name id")
+    return findings, obl, {"t5_allocating_functions": n}
